@@ -140,6 +140,9 @@ struct Spec {
     /// `list_benches`) is called on a `Divan` configured by `--bench` (b), `--test` (t),
     /// `--list` (l) or no action flag (n); `None`: `main()` with the action's own flag.
     entry: Option<char>,
+    /// How the order is requested: `None` = `--sort location`; `r` = `--sortr location`;
+    /// `R` = `DIVAN_SORTR=location`; `e` = `DIVAN_SORT=location` (no flag).
+    sort: Option<char>,
     /// Bytes format set by `--bytes-format`, by `DIVAN_BYTES_FORMAT`, by the builder before
     /// `config_with_args()` and by the builder after it: `Some(true)` = binary.
     fmt: [Option<bool>; 4],
@@ -263,6 +266,10 @@ fn parse_case(case: &str) -> Spec {
     if t.i < t.t.len() && t.t[t.i] == "E" {
         t.next();
         spec.entry = t.next().chars().next();
+    }
+    if t.i < t.t.len() && t.t[t.i] == "S" {
+        t.next();
+        spec.sort = t.next().chars().next();
     }
     // optional: `F <flag>:<env>:<builder before parse>:<builder after parse>`, each `-`, `d` or `b`
     if t.i < t.t.len() && t.t[t.i] == "F" {
@@ -623,7 +630,11 @@ fn run_case(case: &str) -> String {
     if action == "bench" {
         cmd.args(["--timer", "tsc", "--sample-size", "1"]);
     }
-    cmd.args(["--sort", "location"]);
+    match spec.sort {
+        None => { cmd.args(["--sort", "location"]); }
+        Some('r') => { cmd.args(["--sortr", "location"]); }
+        _ => {}
+    }
     // the macro-generated fixture is always linked in: synthetic cases filter it out
     if !spec.mac {
         if spec.exact {
@@ -662,11 +673,16 @@ fn run_case(case: &str) -> String {
     cmd.env("HX_PAINT_SPEC", case);
     cmd.env_remove("NEXTEST");
     for k in ["DIVAN_THREADS", "DIVAN_SAMPLE_COUNT", "DIVAN_SAMPLE_SIZE", "DIVAN_MIN_TIME", "DIVAN_MAX_TIME", "DIVAN_BYTES_FORMAT",
-              "DIVAN_ITEMS_COUNT", "DIVAN_BYTES_COUNT", "DIVAN_CHARS_COUNT", "DIVAN_CYCLES_COUNT", "DIVAN_SKIP_EXT_TIME", "DIVAN_TIMER", "DIVAN_COLOR"] {
+              "DIVAN_ITEMS_COUNT", "DIVAN_BYTES_COUNT", "DIVAN_CHARS_COUNT", "DIVAN_CYCLES_COUNT", "DIVAN_SKIP_EXT_TIME", "DIVAN_TIMER", "DIVAN_COLOR", "DIVAN_SORT", "DIVAN_SORTR"] {
         cmd.env_remove(k);
     }
     if let Some(b) = spec.fmt[1] {
         cmd.env("DIVAN_BYTES_FORMAT", name(b));
+    }
+    match spec.sort {
+        Some('R') => { cmd.env("DIVAN_SORTR", "location"); }
+        Some('e') => { cmd.env("DIVAN_SORT", "location"); }
+        _ => {}
     }
     cmd.stdin(std::process::Stdio::null()).stdout(std::process::Stdio::piped()).stderr(std::process::Stdio::null());
     let mut child = match cmd.spawn() {
